@@ -323,7 +323,11 @@ func (fs *FS) Rename(oldname, newname string) error {
 		// a directory cannot be moved into itself, and the root cannot be moved at all
 		return &hackpadfs.LinkError{Op: "rename", Old: oldname, New: newname, Err: hackpadfs.ErrInvalid}
 	}
-	_, err = fs.getFile(newname)
+	newFile, err := fs.getFile(newname)
+	if err == nil && !newFile.Mode().IsDir() {
+		// like os.Rename, a directory cannot replace a non-directory
+		return &hackpadfs.LinkError{Op: "rename", Old: oldname, New: newname, Err: hackpadfs.ErrNotDir}
+	}
 	if !errors.Is(err, hackpadfs.ErrNotExist) {
 		return &hackpadfs.LinkError{Op: "rename", Old: oldname, New: newname, Err: hackpadfs.ErrExist}
 	}
